@@ -704,3 +704,8 @@ def eq_nan(a, b):
         with np.errstate(all="ignore"):
             return bool(np.all((a == b) | (np.isnan(a.astype(float)) & np.isnan(b.astype(float)))))
     return bool(np.all(a == b))
+
+
+def canon_view(vs):
+    import json
+    return json.dumps(vs, sort_keys=True)
